@@ -6,7 +6,7 @@ open Lean Pyrealb.Driver Pyrealb.LangSites Pyrealb.Gen.Sites
 def sitesOp : Handler := fun _ =>
   pure (Json.mkObj [
     ("sites", Json.arr (langSites.map (fun s => Json.arr #[Json.str s.func, Json.str s.callee, Json.str s.kind])).toArray),
-    ("exempt", Json.arr (exemptFunctions.map Json.str).toArray)])
+    ("exempt", Json.arr ((exemptFunctions ++ derivedExempt).map Json.str).toArray)])
 
 /-- does function `func` (per the inventory) contain a site that lets the current language through? -/
 def leaksOp : Handler := fun j => do
@@ -15,7 +15,7 @@ def leaksOp : Handler := fun j => do
   let ss := langSites.filter (fun s => s.func = f ∧ s.callee = callee)
   pure (Json.mkObj [("known", Json.bool (!ss.isEmpty)),
                     ("current", Json.bool (ss.any (fun s => isCurrentKind s.kind))),
-                    ("exempt", Json.bool (exemptFunctions.contains f))])
+                    ("exempt", Json.bool (isExempt f))])
 
 def ops : List (String × Handler) := [("langsites", sitesOp), ("leaks", leaksOp)]
 end Pyrealb.Driver.LangOps
